@@ -239,11 +239,16 @@ var specs = []mechSpec{
 		// the same (failing) expression with different messages, and at another position of the list: the message is part of what a rule observes
 		{"expressions": []any{map[string]any{"expression": "Subject.ID == 'nobody'", "message": "only nobody may pass"}}},
 		{"expressions": []any{map[string]any{"expression": "Subject.ID == 'nobody'", "message": "tenant policy 7"}}},
-		{"expressions": []any{map[string]any{"expression": "Subject.ID != 'x'"}, map[string]any{"expression": "Subject.ID == 'nobody'"}}}}},
+		{"expressions": []any{map[string]any{"expression": "Subject.ID != 'x'"}, map[string]any{"expression": "Subject.ID == 'nobody'"}}},
+		// the address helpers of the expression language (evaluated per request)
+		{"expressions": []any{map[string]any{"expression": `"10.1.2.3" in networks("10.0.0.0/8") && Subject.ID != 'x'`}}},
+		{"expressions": []any{map[string]any{"expression": `["10.1.2.3", "192.168.1.1"].all(ip, ip in networks(["10.0.0.0/8", "192.168.0.0/16"]))`}}}}},
 	{"authorizer", "remote", []map[string]any{
 		{"payload": "other-{{ .Subject.ID }}"}, {"expressions": []any{map[string]any{"expression": "Payload.allow == true"}}},
 		{"expressions": []any{map[string]any{"expression": "Payload.allow == 'never'", "message": "policy A"}}},
 		{"expressions": []any{map[string]any{"expression": "Payload.allow == 'never'", "message": "policy B"}}},
+		{"expressions": []any{map[string]any{"expression": `Payload.allow == false && "10.1.2.3" in networks("10.0.0.0/8")`}}},
+		{"expressions": []any{map[string]any{"expression": `Payload.allow == false && ["10.1.2.3"].all(ip, ip in networks(["10.0.0.0/8", "192.168.0.0/16"]))`}}},
 		{"forward_response_headers_to_upstream": []any{"X-Other"}}, {"cache_ttl": "9s"}, {"values": map[string]any{"a": "uno"}}, {"values": map[string]any{"c": "three"}}}},
 	{"contextualizer", "ctx", []map[string]any{
 		{"forward_headers": []any{"X-Fwd2"}}, {"payload": "p-{{ .Subject.ID }}"}, {"cache_ttl": "9s"}, {"continue_pipeline_on_error": true},
@@ -798,6 +803,7 @@ func c17Sim(r *simcore.Run) {
 	net.Hook = func(c *simnet.Call) { simsync.Yield("net:" + c.Host) }
 	defer func() { net.Hook = nil }()
 	nTasks := 2 + s.Draw(3, "tasks")
+	loaded := map[string]*inst{} // used while the plans are drawn only
 	// tasks share few mechanism types so that they meet on the same prototype
 	focus := []mechSpec{simcore.Pick(s, runSpecs, "focus1"), simcore.Pick(s, runSpecs, "focus2")}
 	for t := 0; t < nTasks; t++ {
@@ -816,11 +822,28 @@ func c17Sim(r *simcore.Run) {
 			}
 			plan = append(plan, step{sp, ov})
 		}
+		// half of the steps use the instance a loaded rule holds (shared by all requests of that rule), the others
+		// create theirs while requests are served (rule loading)
+		held := make([]*inst, len(plan)) // resolved here: the tasks must not touch the map
+		for k := range plan {
+			if s.Draw(2, "instance-of-a-loaded-rule") == 1 {
+				key := (&inst{spec: plan[k].sp, override: plan[k].ov}).name()
+				if _, ok := loaded[key]; !ok {
+					if in, err := create(cw.Mechanisms, plan[k].sp, plan[k].ov); err == nil {
+						loaded[key] = in
+					}
+				}
+				held[k] = loaded[key]
+			}
+		}
 		sch.Go(fmt.Sprintf("request-%d", t), func() {
-			for _, st := range plan {
-				in, err := create(cw.Mechanisms, st.sp, st.ov) // rule loading may happen while requests are served
-				if err != nil {
-					continue
+			for k, st := range plan {
+				in := held[k]
+				if in == nil {
+					var err error
+					if in, err = create(cw.Mechanisms, st.sp, st.ov); err != nil { // rule loading may happen while requests are served
+						continue
+					}
 				}
 				simsync.Yield("before-execute")
 				in.exec(newCtx(shared, probe))
